@@ -770,8 +770,14 @@ static void DecodeCALLJMP(Word Index) {
             case TypeImm:
                 ChkSpace(SegCode, ImmAddrSpaceMask);
                 AdrWord = (((Word)AdrVals[1]) << 8) | AdrVals[0];
+                /* The short form of a forward JMP is measured against where the
+                   target was in the previous pass; at the limit both forms can
+                   invalidate each other for ever (e.g. out of a PHASEd block).
+                   Stop shrinking in late passes so that assembly always settles: */
+
                 if ((AdrByte == 2)
-                    || ((AdrByte == 0) && (AbleToSign(AdrWord - EProgCounter() - 2)))) {
+                    || ((AdrByte == 0) && (PassNo <= 8)
+                        && (AbleToSign(AdrWord - EProgCounter() - 2)))) {
                     AdrWord -= EProgCounter() + 2;
                     if (!AbleToSign(AdrWord)) {
                         WrError(ErrNum_DistTooBig);
